@@ -54,8 +54,8 @@ def unhex(s):
 
 def parse_chunk(c: str) -> bytes:
     if c.startswith("G:"):
-        _, s, l = c.split(":")
-        return gen.content_bytes(("G", int(s), int(l)))
+        t = c.split(":")
+        return gen.content_bytes(("G", int(t[1]), int(t[2])), int(t[3]) if len(t) > 3 else 0)
     return unhex(c)
 
 
@@ -191,7 +191,7 @@ def seq_oracle(case_text, real_lines):
         if m:
             results[int(m.group(1))] = (m.group(2), m.group(3)); cur = None
         elif l.startswith("O "):
-            if cur is None:
+            if cur is None or l.startswith(("O entries:", "O closed")):
                 cur = []; obs_blocks.append(cur)
             cur.append(l[2:])
         elif l.startswith("T "):
@@ -205,7 +205,7 @@ def seq_oracle(case_text, real_lines):
     last_state, dirty, after_open = None, True, False
     for l in lines:
         t = l.split()
-        if t[0] in ("cfg", "plant", "mkdir", "fault"):
+        if t[0] in ("cfg", "plant", "mkdir", "fault", "setsettings"):
             continue
         if t[0] == "obs":
             if obs_i >= len(obs_blocks):
@@ -282,7 +282,7 @@ def seq_oracle(case_text, real_lines):
 
 def op_lines(case_text):
     return [l for l in case_text.splitlines()
-            if l and not l.startswith(("case ", "end", "cfg ", "obs", "plant ", "mkdir ", "fault "))]
+            if l and not l.startswith(("case ", "end", "cfg ", "obs", "plant ", "mkdir ", "fault ", "setsettings "))]
 
 
 def split_crash_blocks(lines):
@@ -594,4 +594,62 @@ def damage_oracle(case_text, real_lines):
         got = res.split(" ", 1)[1] if " " in res else ""
         if got != render(st):
             fails.append(("damage_accepted", l.split(" -> ")[0], f"damaged log silently accepted: recovered {got[:300]}, longest undamaged prefix gives {render(st)[:300]}"))
+    return fails
+
+
+
+# ---------------------------------------------------------------------------------------------
+# settings gate oracle (C19)
+
+def settings_oracle(case_text, real_lines):
+    """an open whose configuration or stored version does not match must fail, and the obs block
+    after it must equal the obs block before it; tags: gate_accepts gate_modifies"""
+    fails = []
+    lines = [l for l in case_text.splitlines() if l and not l.startswith(("case ", "end"))]
+    cfg = case_cfg(lines)
+    stored_n, stored_v = cfg["n"], "4"
+    created = False
+    results = {}
+    for l in real_lines:
+        m = R_RE.match(l)
+        if m:
+            results[int(m.group(1))] = m.group(3)
+    blocks, cur = [], None
+    for l in real_lines:
+        if l.startswith(("O entries:", "O closed")):
+            cur = []; blocks.append(cur)
+        if l.startswith("O ") and cur is not None:
+            cur.append(l)
+    idx, bi, last_block, expect_same = 0, 0, None, None
+    for l in lines:
+        t = l.split()
+        if t[0] in ("cfg", "plant", "mkdir", "fault"):
+            continue
+        if t[0] == "setsettings":
+            stored_v, stored_n = t[1], t[3]; continue
+        if t[0] == "obs":
+            blk = [x for x in (blocks[bi] if bi < len(blocks) else []) if x.startswith(("O F", "O L", "O S"))]
+            bi += 1
+            if expect_same is not None and blk != expect_same[1]:
+                d = [x for x in blk if x not in expect_same[1]] + [x for x in expect_same[1] if x not in blk]
+                fails.append(("gate_modifies", f"rejected `{expect_same[0]}` modified the directory: {d[:4]}"))
+            expect_same = None
+            last_block = blk
+            continue
+        res = results.get(idx); idx += 1
+        if t[0] == "open":
+            n = cfg["n"]
+            for kv in t[1:]:
+                if kv.startswith("n="):
+                    n = kv[2:]
+            if not created:
+                created = True; stored_n = n
+                continue
+            bad = (n != stored_n) or (stored_v != "4")
+            if bad:
+                if res is None or not res.startswith("err:settings."):
+                    fails.append(("gate_accepts", f"`{l}` on a store created with n={stored_n}, stored version {stored_v} returned {res}"))
+                expect_same = (l, last_block)
+            elif res is None or not res.startswith("opened"):
+                fails.append(("gate_accepts", f"correct `{l}` (n={stored_n}) failed: {res}"))
     return fails
